@@ -344,3 +344,158 @@ pub fn gen_c06(seed: u64, tier: Tier) -> CaseSet {
     tally.into_stats(&mut stats);
     finish("pool", 6, cases, descr, sigs, stats)
 }
+
+// ---------------------------------------------------------------------------------------------
+// C07 / C08 / C18: consistent multi-window histories.  A ground-truth chain decides the fate of
+// every slot (chain block or skipped); finalized chain blocks (fast or slow), certificates,
+// competing ("orphan") certified blocks in non-finalized slots and block-parent registrations are
+// delivered in arbitrary order (certificates as received certificates or as the votes forming
+// them), so that final-before-notar, children-before-parents, gaps and certificates for already
+// decided slots all occur.
+pub struct World {
+    pub ops: Vec<Op>,
+    pub max_slot: u64,
+}
+
+pub fn world(rng: &mut Rng, stakes: &[u64], own: u64, with_waits: bool, with_old_votes: bool, standstill: bool) -> World {
+    let n = stakes.len() as u64;
+    let nslots = rng.range(4, 14);
+    // fate per slot: Some(hash) = chain block, None = skipped in the chain
+    let mut chain: Vec<Option<u64>> = vec![Some(0)];
+    for s in 1..=nslots {
+        let skipped = match rng.below(10) { 0..=2 => true, _ => false };
+        // skipped windows: sometimes skip a whole run
+        if skipped { chain.push(None); } else { chain.push(Some(s * 10 + 1)); }
+    }
+    if rng.chance(1, 5) {
+        // one fully skipped window
+        let w = rng.range(0, nslots / SPW) * SPW;
+        for s in w.max(1)..(w + SPW).min(nslots + 1) { chain[s as usize] = None; }
+    }
+    let parent_of = |chain: &Vec<Option<u64>>, s: u64| -> (u64, u64) {
+        let mut p = s - 1;
+        loop { if let Some(h) = chain[p as usize] { return (p, h); } p -= 1; }
+    };
+    // finalized chain blocks
+    let mut groups: Vec<Vec<Op>> = Vec::new();
+    let mut highest_final = 0u64;
+    let as_votes = |rng: &mut Rng, slot: u64, kind: VK, hash: u64, q: &[u64]| -> Vec<Op> {
+        let mut q = q.to_vec(); rng.shuffle(&mut q);
+        q.iter().map(|&v| Op::Vote { slot, kind, hash, signer: v }).collect()
+    };
+    for s in 1..=nslots {
+        match chain[s as usize] {
+            Some(h) => {
+                let fin = rng.below(10);
+                if fin < 2 {
+                    // fast finalization
+                    let q = quorum_subset(rng, stakes, 4, 5);
+                    if rng.chance(1, 2) { groups.push(vec![Op::Cert { slot: s, kind: CK::FastFinal, hash: h, s1: q, s2: vec![] }]); }
+                    else { groups.push(as_votes(rng, s, VK::Notar, h, &q)); }
+                    highest_final = s;
+                    if rng.chance(1, 3) { let q = quorum_subset(rng, stakes, 3, 5); groups.push(vec![Op::Cert { slot: s, kind: CK::Final, hash: 0, s1: q, s2: vec![] }]); }
+                } else if fin < 5 {
+                    // slow finalization: notar + final
+                    let q = quorum_subset(rng, stakes, 3, 5);
+                    if rng.chance(1, 2) { groups.push(vec![Op::Cert { slot: s, kind: CK::Notar, hash: h, s1: q, s2: vec![] }]); } else { groups.push(as_votes(rng, s, VK::Notar, h, &q)); }
+                    let q = quorum_subset(rng, stakes, 3, 5);
+                    if rng.chance(1, 2) { groups.push(vec![Op::Cert { slot: s, kind: CK::Final, hash: 0, s1: q, s2: vec![] }]); } else { groups.push(as_votes(rng, s, VK::Final, 0, &q)); }
+                    highest_final = s;
+                } else if fin < 9 {
+                    // notarized (or notar-fallback certified) only
+                    let q = quorum_subset(rng, stakes, 3, 5);
+                    if rng.chance(2, 3) { groups.push(vec![Op::Cert { slot: s, kind: CK::Notar, hash: h, s1: q, s2: vec![] }]); }
+                    else { let k = rng.range(0, q.len() as u64) as usize; groups.push(vec![Op::Cert { slot: s, kind: CK::NotarFb, hash: h, s1: q[..k].to_vec(), s2: q[k..].to_vec() }]); }
+                    // a notarized, not finalized slot may additionally be skip-certified
+                    if rng.chance(1, 6) { let q = quorum_subset(rng, stakes, 3, 5); groups.push(vec![Op::Cert { slot: s, kind: CK::Skip, hash: 0, s1: vec![], s2: q }]); }
+                }
+                if rng.chance(5, 6) { groups.push(vec![Op::Block { b: (s, h), p: parent_of(&chain, s) }]); }
+            }
+            None => {
+                let orphan = rng.chance(1, 4);
+                // a slot skipped by the chain may carry a competing notarized block and then often has no
+                // explicit skip certificate (it is skipped only as a consequence of a later finalization)
+                if (!orphan && rng.chance(5, 6)) || (orphan && rng.chance(1, 2)) {
+                    let q = quorum_subset(rng, stakes, 3, 5);
+                    if rng.chance(1, 2) { let k = rng.range(0, q.len() as u64) as usize; groups.push(vec![Op::Cert { slot: s, kind: CK::Skip, hash: 0, s1: q[..k].to_vec(), s2: q[k..].to_vec() }]); }
+                    else { groups.push(as_votes(rng, s, VK::Skip, 0, &q)); }
+                }
+                // competing certified block in a skipped slot
+                if orphan {
+                    let h = s * 10 + 2;
+                    let q = quorum_subset(rng, stakes, 3, 5);
+                    let k = rng.range(0, q.len() as u64) as usize;
+                    if rng.chance(1, 2) { groups.push(vec![Op::Cert { slot: s, kind: CK::Notar, hash: h, s1: q.clone(), s2: vec![] }]); }
+                    else { groups.push(vec![Op::Cert { slot: s, kind: CK::NotarFb, hash: h, s1: q[..k].to_vec(), s2: q[k..].to_vec() }]); }
+                    if rng.chance(1, 2) { groups.push(vec![Op::Block { b: (s, h), p: parent_of(&chain, s) }]); }
+                }
+            }
+        }
+    }
+    // skipped slots below a finalized descendant must not carry the skipped fate inconsistently:
+    // (a slot skipped in the chain below the highest finalized block is implicitly skipped: consistent)
+    let _ = highest_final;
+    if with_waits {
+        let mut w = 0;
+        while w <= nslots + SPW { if rng.chance(1, 3) { groups.push(vec![Op::Wait(w)]); } w += SPW; }
+    }
+    if with_old_votes {
+        // late votes for arbitrary (possibly already decided) slots
+        for _ in 0..rng.range(1, 6) {
+            let s = rng.range(1, nslots);
+            let k = *rng.pick(&[VK::Notar, VK::Skip, VK::Final, VK::SkipFb]);
+            let h = chain[s as usize].unwrap_or(s * 10 + 1);
+            groups.push(vec![Op::Vote { slot: s, kind: k, hash: h, signer: rng.below(n) }]);
+        }
+    }
+    let _ = own;
+    rng.shuffle(&mut groups);
+    let mut ops: Vec<Op> = Vec::new();
+    for g in groups {
+        ops.extend(g);
+        if standstill && rng.chance(1, 5) { ops.push(Op::Standstill); }
+    }
+    if standstill { ops.push(Op::Standstill); }
+    World { ops, max_slot: nslots }
+}
+const SPW: u64 = pool::SLOTS_PER_WINDOW;
+
+fn gen_world(seed: u64, tier: Tier, sel: u64, salt: u64, nq: usize, nt: usize, waits: bool, old: bool, standstill: bool, rule: &str) -> CaseSet {
+    let mut rng = Rng::new(seed ^ salt);
+    let mut ring = KeyRing::new();
+    let ncases = match tier { Tier::Quick => nq, Tier::Thorough => nt };
+    let (mut cases, mut descr, mut sigs) = (Vec::new(), Vec::new(), Vec::new());
+    let mut stats = Stats::default();
+    let mut tally = Tally::default();
+    let mut seen = HashSet::new();
+    for cid in 0..ncases as u64 {
+        let (stakes, fam) = stake_family(&mut rng);
+        *tally.families.entry(fam).or_default() += 1;
+        let own = rng.below(stakes.len() as u64);
+        let w = world(&mut rng, &stakes, own, waits, old, standstill);
+        let keys = ring.get(stakes.len());
+        let (txt, outs) = pool::run_case(keys, cid, &stakes, own, &w.ops);
+        record(cid, &outs, "pool", &mut sigs, &mut stats);
+        stats.evaluations += 1;
+        let nontrivial = outs.last().map(|o| o.finalized > 0 || o.parents_ready.iter().any(|(s, l)| *s > 0 && !l.is_empty())).unwrap_or(false);
+        if nontrivial && seen.insert(txt.clone()) { stats.distinct_nontrivial += 1; }
+        if stats.samples.len() < 1 && nontrivial { stats.samples.push(txt.chars().take(2500).collect()); }
+        descr.push(format!("case {}: stakes {:?} ({}), own {}, {} slots, {} ops, final slot {} watermark {}", cid, stakes, fam, own, w.max_slot, outs.len(), outs.last().map(|o| o.finalized).unwrap_or(0), outs.last().map(|o| o.first_unpruned).unwrap_or(0)));
+        tally.add(&outs);
+        cases.push(txt);
+    }
+    stats.rule = rule.to_string();
+    tally.into_stats(&mut stats);
+    finish("pool", sel, cases, descr, sigs, stats)
+}
+
+const WORLD_RULE: &str = "consistent multi-window histories (4-14 slots): a ground-truth chain fixes each slot's fate (chain block or skipped, incl. whole skipped windows); chain blocks are fast-finalized, slow-finalized (notar + final), only notarized / notar-fallback certified (sometimes additionally skip-certified) or uncertified; skipped slots get skip certificates and sometimes a competing certified block; block-parent registrations for most blocks; every certificate is delivered either as a received certificate or as the votes forming it; all groups shuffled (final before notar, children before parents, gaps, certificates for already decided slots)";
+
+pub fn gen_c07(seed: u64, tier: Tier) -> CaseSet {
+    gen_world(seed, tier, 7, 0xC07, 500, 10000, true, false, false,
+              &format!("{}; plus wait_for_parent_ready registrations at random points; non-trivial = something was finalized or a window beyond genesis got a ready parent; distinct by full trace", WORLD_RULE))
+}
+pub fn gen_c08(seed: u64, tier: Tier) -> CaseSet {
+    gen_world(seed, tier, 8, 0xC08, 500, 10000, false, true, false,
+              &format!("{}; plus late votes for arbitrary (possibly decided) slots; non-trivial as C07", WORLD_RULE))
+}
